@@ -339,7 +339,7 @@ func poolCase(o *out.W, r *gen.Rng) {
 //                                a Send was parked inside the carrier write
 //  call-blocked                  the parked Send / a later call did not return
 
-const stallBound = 1500 * time.Millisecond
+const stallBound = 5 * time.Second // generous: only spent when the property is violated; must not trip on a loaded machine
 
 func stallCase(o *out.W, r *gen.Rng, how string) {
 	o.Case("C19 receive error behind a stuck send: " + how)
